@@ -22,6 +22,20 @@ THEOREMS = ["C04_render_if_first_truthy", "C04_render_else", "C04_render_for_arr
             "C04_route_camel_families", "C04_route_verbatim_families", "C04_route_events", "C04_route_data_hyphen", "C04_route_plain"]
 
 
+def flat_virtual(nodes):
+    """`<block>` contributes only its children: a virtual node that carries no slot is replaced by its children"""
+    out = []
+    for n in nodes:
+        n = dict(n)
+        if "ch" in n:
+            n["ch"] = flat_virtual(n["ch"])
+        if n.get("k") == "virtual" and n.get("slot") in (None, {"$u": 1}):
+            out.extend(n.get("ch", []))
+        else:
+            out.append(n)
+    return out
+
+
 def norm(nodes):
     out = []
     for n in nodes:
@@ -171,6 +185,34 @@ def run(res):
                 res.violation("created tree differs from the WXML specification near: generated ...%s | specification ...%s (template %s)" % (
                     a[max(0, i - 80):i + 80], b[max(0, i - 80):i + 80], j["src"][:200]),
                     {"src": j["src"], "data": j["data"], "slotValues": j["slotValues"], "generated_tree": got, "spec_tree": spec})
+    # structural equivalences written from the documentation (a directive on an element = the directive wrapped around the
+    # element), independent of the implementation's own parse tree: both sides are created with the same data
+    pp = harness_run(["pairs", res.tier, res.seed], timeout=3000)
+    pairs = [json.loads(l) for l in pp.stdout.decode("utf8").split("\n") if l]
+    pjobs = []
+    for k, j in enumerate(pairs):
+        for side in ("a", "b"):
+            pjobs.append({"op": "run", "id": "%d%s" % (k, side), "bundle": j["bundle_" + side], "path": "p", "slotValues": {"$o": {}},
+                          "steps": [{"create": j["data"]}]})
+    pout = node_jobs(pjobs, shards=12)
+    n_pairs = 0
+    for k, j in enumerate(pairs):
+        if j["level_a"] >= 3 or j["level_b"] >= 3:
+            continue
+        oa, ob = pout[2 * k], pout[2 * k + 1]
+        n_pairs += 1
+        ta = oa.get("error") or json.dumps(flat_virtual(norm(oa["trees"][0])), sort_keys=True)
+        tb = ob.get("error") or json.dumps(flat_virtual(norm(ob["trees"][0])), sort_keys=True)
+        if ta != tb:
+            found += 1
+            if found <= 6:
+                i = 0
+                while i < min(len(ta), len(tb)) and ta[i] == tb[i]:
+                    i += 1
+                res.violation("two templates that WXML semantics make equal (a directive on an element = the directive wrapped around "
+                              "it) create different trees: %s | %s near ...%s vs ...%s" % (j["a"][:200], j["b"][:200], ta[max(0, i - 60):i + 60], tb[max(0, i - 60):i + 60]),
+                              {"template_a": j["a"], "template_b": j["b"], "data": j["data"]})
+    res.notes["structural_equivalence_pairs"] = n_pairs
     n_route, f_route = attr_routes(res)
     found += f_route
     n_sv, f_sv = static_values(res)
